@@ -14,6 +14,15 @@
 // afterwards), then the verification under
 // test, then the same verification once more. Every one of these calls is emitted as a case;
 // the model predicts each of them statelessly (Input.history is "must not matter" data).
+//
+// Handed-out copies: between the verifications of a history, a "caller" asks the verifier's own
+// documents for a statement through the exported accessors that are documented to return a deep
+// copy (OCIDocument.GetApplicableTrustPolicy, BlobDocument.GetApplicableTrustPolicy,
+// BlobDocument.GetGlobalTrustPolicy) and WRITES into what it got: elements of TrustStores /
+// RegistryScopes / TrustedIdentities in place, append to the re-sliced [:0], append, re-assignment,
+// sorting, entries of the Override map, level, name, global flag - preferring a store of the
+// required type that holds the chain and that the statement does not list. The model is told
+// (Input.copyEdits) and ignores it: the verifier's documents still read what they read.
 package c03
 
 import (
@@ -61,19 +70,31 @@ type Stmt struct {
 }
 
 type Input struct {
-	Scheme     string   `json:"scheme"`
-	Chain      []int    `json:"chain"`
-	Statements []Stmt   `json:"statements"`
-	Repo       string   `json:"repo"`
-	World      []Store  `json:"world"`
-	RefOk      bool     `json:"refOk"`
-	SameKey    [][]int  `json:"sameKey"`
-	IdentityOk bool     `json:"identityOk"`
-	Plugin     string   `json:"plugin"`
-	Backend    string   `json:"backend"`
-	Format     string   `json:"format"`
-	Kind       string   `json:"kind"`
-	History    []string `json:"history"`
+	Scheme     string     `json:"scheme"`
+	Chain      []int      `json:"chain"`
+	Statements []Stmt     `json:"statements"`
+	Repo       string     `json:"repo"`
+	World      []Store    `json:"world"`
+	RefOk      bool       `json:"refOk"`
+	SameKey    [][]int    `json:"sameKey"`
+	IdentityOk bool       `json:"identityOk"`
+	Plugin     string     `json:"plugin"`
+	Backend    string     `json:"backend"`
+	Format     string     `json:"format"`
+	Kind       string     `json:"kind"`
+	CopyEdits  []CopyEdit `json:"copyEdits"`
+	History    []string   `json:"history"`
+}
+
+// CopyEdit is what a caller wrote into a statement that a policy document of the verifier handed
+// out as a deep copy (Lean: structure CopyEdit). "Must not matter" data.
+type CopyEdit struct {
+	Doc    string   `json:"doc"`
+	Via    string   `json:"via"`
+	Stmt   int      `json:"stmt"`
+	Field  string   `json:"field"`
+	How    string   `json:"how"`
+	Values []string `json:"values"`
 }
 
 type Call struct {
@@ -267,6 +288,7 @@ type call struct {
 	plugin                           string // "none" | "identity-success" | "identity-failure" | "identity+revocation-success" | "identity+revocation-failure" | "revocation-only"
 	phase                            string // "prelude:<kind>" | "test" | "repeat"
 	refForm                          string // "" (path@digest) | "tag@digest" | "tag" | "digest-only"
+	editField, editHow               string // edit steps of the systematic sweep: the field and the way it is written ("" = drawn)
 }
 
 func (c call) String() string {
@@ -915,7 +937,26 @@ func history(r *rand.Rand, a acase) []call {
 	}
 	rep := test
 	rep.phase = "repeat"
-	return append(out, test, rep)
+	out = append(out, test, rep)
+	// edit steps: a caller writes into a statement the verifier's document handed out as a deep
+	// copy - anywhere before the last verification, mostly right before the test or the repeat
+	// (more often where the verification passes: an identity or scope that leaked shows only there)
+	if r.Intn(4) < 2 || ((strings.HasPrefix(a.mode, "good") || a.testKind == "blob") && r.Intn(2) == 0) {
+		for n := 1 + r.Intn(2); n > 0; n-- {
+			pos := len(out) - 1 // between test and repeat
+			switch x := r.Intn(4); {
+			case x == 0:
+				pos = r.Intn(len(out))
+			case x == 1:
+				pos = len(out) - 2 // right before the test
+			}
+			for pos > 0 && out[pos-1].phase == "edit" {
+				pos-- // (keeps the "repeat" right behind its edits)
+			}
+			out = append(out[:pos:pos], append([]call{{phase: "edit"}}, out[pos:]...)...)
+		}
+	}
+	return out
 }
 
 // ---- concretisation -----------------------------------------------------------------------
@@ -1110,8 +1151,11 @@ type scenario struct {
 	active    string             // dir back end: the world currently at <root>/truststore
 	worlds    map[string][]Store // what the model is told about each world
 	history   []string
-	plugin    *common.ScriptedPlugin // the one installed verification plugin; scripted per call
-	validated bool                   // the documents passed Validate as generated
+	plugin    *common.ScriptedPlugin   // the one installed verification plugin; scripted per call
+	validated bool                     // the documents passed Validate as generated
+	doc       *trustpolicy.OCIDocument // the verifier's documents (the verifier keeps these pointers)
+	bdoc      *trustpolicy.BlobDocument
+	edits     []CopyEdit // what callers wrote so far into statements the documents handed out
 }
 
 func newScenario(c *common.Ctx, p *pki, a acase, seq int, extra map[string][]place) *scenario {
@@ -1160,7 +1204,7 @@ func newScenario(c *common.Ctx, p *pki, a acase, seq int, extra map[string][]pla
 		bdoc := &trustpolicy.BlobDocument{Version: "1.0"}
 		for k, st := range a.stmts {
 			doc.TrustPolicies = append(doc.TrustPolicies, trustpolicy.OCITrustPolicy{
-				Name: a.name(k), RegistryScopes: st.Scopes,
+				Name: a.name(k), RegistryScopes: append([]string{}, st.Scopes...), // the document's own slices: nothing is shared with what the model is told
 				SignatureVerification: trustpolicy.SignatureVerification{VerificationLevel: st.Level, Override: override(st), VerifyTimestamp: trustpolicy.TimestampOption(a.verifyTimestamp[k])},
 				TrustStores:           lists(st.TrustStores),
 				TrustedIdentities:     []string{"*"},
@@ -1199,7 +1243,215 @@ func newScenario(c *common.Ctx, p *pki, a acase, seq int, extra map[string][]pla
 		}
 	}
 	sc.v = v
+	sc.doc, sc.bdoc = doc, bdoc
 	return sc
+}
+
+// copyView is a statement handed out by one of the documents, as its caller sees it.
+type copyView struct {
+	doc, via, arg string
+	stmt          int
+	name          *string
+	stores        *[]string
+	identities    *[]string
+	scopes        *[]string // OCI only
+	sv            *trustpolicy.SignatureVerification
+	global        *bool // blob only
+}
+
+// handOut asks one of the verifier's documents for a statement, the way any component of the
+// process may: through the exported accessors documented to return a deep copy.
+func (sc *scenario) handOut(r *rand.Rand, test call, forced bool) *copyView {
+	a := sc.a
+	kind := test.kind
+	if r.Intn(5) == 0 {
+		kind = map[string]string{"oci": "blob", "blob": "oci"}[kind]
+	}
+	same := kind == test.kind && r.Intn(5) != 0
+	if forced {
+		kind, same = test.kind, true
+	}
+	if kind == "oci" {
+		repo := pick(r, append(append([]string{}, scopePool...), noneRepo))
+		if same {
+			repo = test.repo
+		}
+		ref, _, _ := reference(repo, "")
+		p, err := sc.doc.GetApplicableTrustPolicy(ref)
+		if err != nil || p == nil {
+			return nil
+		}
+		v := &copyView{doc: "oci", via: "GetApplicableTrustPolicy", arg: repo, stmt: -1, name: &p.Name, stores: &p.TrustStores,
+			identities: &p.TrustedIdentities, scopes: &p.RegistryScopes, sv: &p.SignatureVerification}
+		for k := range a.stmts {
+			if a.name(k) == p.Name {
+				v.stmt = k
+			}
+		}
+		return v
+	}
+	name := pick(r, append(append([]string{}, a.names[:len(a.stmts)]...), ""))
+	if same {
+		name = test.repo
+	}
+	var p *trustpolicy.BlobTrustPolicy
+	var err error
+	via := "GetApplicableTrustPolicy"
+	if name == "" {
+		via = "GetGlobalTrustPolicy"
+		p, err = sc.bdoc.GetGlobalTrustPolicy()
+	} else {
+		p, err = sc.bdoc.GetApplicableTrustPolicy(name)
+	}
+	if err != nil || p == nil {
+		return nil
+	}
+	v := &copyView{doc: "blob", via: via, arg: name, stmt: -1, name: &p.Name, stores: &p.TrustStores,
+		identities: &p.TrustedIdentities, sv: &p.SignatureVerification, global: &p.GlobalPolicy}
+	for k := range a.blobStmts {
+		if a.name(k) == p.Name {
+			v.stmt = k
+		}
+	}
+	return v
+}
+
+// editSlice writes into a []string field of a handed-out statement.
+func editSlice(r *rand.Rand, f *[]string, how string, val func() string) string {
+	if len(*f) == 0 && (how == "element" || how == "sort") {
+		how = "append"
+	}
+	switch how {
+	case "element":
+		if r.Intn(3) == 0 {
+			(*f)[r.Intn(len(*f))] = val()
+		} else {
+			v := val()
+			for k := range *f {
+				(*f)[k] = v
+				if r.Intn(3) == 0 {
+					v = val()
+				}
+			}
+		}
+	case "reslice":
+		*f = append((*f)[:0], val())
+	case "append":
+		*f = append(*f, val())
+	case "assign":
+		*f = []string{val()}
+	case "sort":
+		sort.Sort(sort.Reverse(sort.StringSlice(*f)))
+	}
+	return how
+}
+
+// edit is one edit step of a history: a caller obtains a statement from a document of the
+// verifier and writes into ITS copy. Nothing is verified, nothing is emitted; the following
+// verifications are told about it (Input.copyEdits) and must not care.
+func (sc *scenario) edit(r *rand.Rand, test, step call) []string {
+	v := sc.handOut(r, test, step.editField != "")
+	if v == nil {
+		sc.history = append(sc.history, "edit/no statement handed out")
+		return []string{"edit step: no statement handed out"}
+	}
+	keys := []string{"edit step: " + v.doc + "." + v.via}
+	want := wantType(test.scheme)
+	// the value a leak would hurt most with: a store of the required type that loads, holds a
+	// certificate of the chain and is NOT listed by the statement
+	listed := listedNames(*v.stores, want)
+	var hostile []string
+	for _, st := range sc.worlds["base"] {
+		if st.Ty != want || !st.Ok || listed[st.Name] {
+			continue
+		}
+		for _, c := range st.Certs {
+			for _, d := range chainIDs[test.chain] {
+				if c == d {
+					hostile = append(hostile, want+":"+st.Name)
+				}
+			}
+		}
+	}
+	storeVal := func() string {
+		if len(hostile) > 0 && r.Intn(5) != 0 {
+			return pick(r, hostile)
+		}
+		return pick(r, storeTypes) + ":" + pick(r, append(append([]string{}, storeNames...), "delta"))
+	}
+	hows := []string{"element", "element", "element", "reslice", "append", "assign", "sort"}
+	fields := []string{"trustStores", "trustStores", "trustStores", "trustStores", "trustedIdentities", "override", "override", "level", "name"}
+	if v.scopes != nil {
+		fields = append(fields, "registryScopes", "registryScopes")
+	} else {
+		fields = append(fields, "globalPolicy")
+	}
+	desc := ""
+	done := map[string]bool{}
+	for n := 1 + r.Intn(4); n > 0; n-- {
+		field := pick(r, fields)
+		if step.editField != "" {
+			field, hows, n = step.editField, []string{step.editHow}, 1
+		}
+		if done[field] {
+			continue
+		}
+		done[field] = true
+		e := CopyEdit{Doc: v.doc, Via: v.via, Stmt: v.stmt, Field: field}
+		if v.stmt < 0 {
+			e.Stmt = 0
+		}
+		switch field {
+		case "trustStores":
+			e.How = editSlice(r, v.stores, pick(r, hows), storeVal)
+			e.Values = append([]string{}, *v.stores...)
+		case "registryScopes":
+			e.How = editSlice(r, v.scopes, pick(r, hows[:min(6, len(hows))]), func() string {
+				return pick(r, append(append([]string{}, scopePool...), noneRepo, "*"))
+			})
+			e.Values = append([]string{}, *v.scopes...)
+		case "trustedIdentities":
+			e.How = editSlice(r, v.identities, pick(r, hows[:min(6, len(hows))]), func() string { return "x509.subject: C=US, ST=WA, O=nobody, CN=nobody" })
+			e.Values = append([]string{}, *v.identities...)
+		case "override":
+			if _, ok := v.sv.Override[trustpolicy.TypeAuthenticity]; ok && (r.Intn(2) == 0 || step.editHow == "mapDelete") {
+				e.How = "mapDelete"
+				delete(v.sv.Override, trustpolicy.TypeAuthenticity)
+			} else {
+				e.How = "mapSet"
+				if v.sv.Override == nil {
+					v.sv.Override = map[trustpolicy.ValidationType]trustpolicy.ValidationAction{}
+				}
+				if v.sv.Override[trustpolicy.TypeAuthenticity] == trustpolicy.ActionLog {
+					v.sv.Override[trustpolicy.TypeAuthenticity] = trustpolicy.ActionEnforce
+				} else {
+					v.sv.Override[trustpolicy.TypeAuthenticity] = trustpolicy.ActionLog
+				}
+			}
+			e.Values = []string{}
+			for k, a := range v.sv.Override {
+				e.Values = append(e.Values, string(k)+"="+string(a))
+			}
+			sort.Strings(e.Values)
+		case "level":
+			e.How = "assign"
+			v.sv.VerificationLevel = otherOf(r, []string{"strict", "permissive", "audit"}, v.sv.VerificationLevel)
+			e.Values = []string{v.sv.VerificationLevel}
+		case "name":
+			e.How = "assign"
+			*v.name = otherOf(r, append(append([]string{}, sc.a.names...), "renamed"), *v.name)
+			e.Values = []string{*v.name}
+		case "globalPolicy":
+			e.How = "assign"
+			*v.global = !*v.global
+			e.Values = []string{fmt.Sprint(*v.global)}
+		}
+		sc.edits = append(sc.edits, e)
+		desc += "/" + field + ":" + e.How
+		keys = append(keys, "edit: "+field+":"+e.How)
+	}
+	sc.history = append(sc.history, "edit/"+v.doc+"."+v.via+"("+v.arg+")"+desc)
+	return keys
 }
 
 // activate makes `world` the contents of the one trust store object.
@@ -1230,7 +1482,7 @@ func (sc *scenario) close() {
 func (sc *scenario) verify(cl call) (Input, Obs) {
 	a := sc.a
 	in := Input{Scheme: cl.scheme, Chain: chainIDs[cl.chain], Repo: cl.repo, RefOk: true, SameKey: sameKeyGroups, Backend: a.backend, Format: a.format,
-		Kind: cl.kind, World: sc.worlds[cl.world], History: append([]string{}, sc.history...),
+		Kind: cl.kind, World: sc.worlds[cl.world], History: append([]string{}, sc.history...), CopyEdits: append([]CopyEdit{}, sc.edits...),
 		Plugin: cl.plugin, IdentityOk: !strings.HasSuffix(cl.plugin, "-failure")}
 	artifactRef := ""
 	if cl.kind == "oci" {
@@ -1418,14 +1670,14 @@ func runStress(c *common.Ctx, p *pki) {
 				st := Stmt{Scopes: []string{"reg.example/load"}, TrustStores: []string{pl.ty + ":" + pl.name}, Level: "permissive"}
 				work[g] = append(work[g], stressCall{load: true, ty: pl.ty, name: pl.name, in: Input{Scheme: scheme, Chain: pl.certs,
 					Statements: []Stmt{st}, Repo: "reg.example/load", RefOk: true, SameKey: sameKeyGroups, World: world, IdentityOk: true, Plugin: "none", Backend: "dir", Format: "jws",
-					Kind: "load", History: note}})
+					Kind: "load", CopyEdits: []CopyEdit{}, History: note}})
 			}
 			continue
 		}
 		for k := 0; k < rounds; k++ {
 			sc := stressCall{scheme: pick(r, []string{"x509", "signingAuthority"}), chain: pick(r, chainNames), repo: stmts[r.Intn(len(stmts))].Scopes[0]}
 			sc.in = Input{Scheme: sc.scheme, Chain: chainIDs[sc.chain], Statements: stmts, Repo: sc.repo, RefOk: true, SameKey: sameKeyGroups, World: world, IdentityOk: true,
-				Plugin: "none", Backend: "dir", Format: "jws", Kind: "oci", History: note}
+				Plugin: "none", Backend: "dir", Format: "jws", Kind: "oci", CopyEdits: []CopyEdit{}, History: note}
 			work[g] = append(work[g], sc)
 		}
 	}
@@ -1487,6 +1739,95 @@ func runStress(c *common.Ctx, p *pki) {
 	}
 }
 
+// sweepFields: every field of a handed-out statement with every way the harness writes it.
+var sweepFields = [][2]string{
+	{"trustStores", "element"}, {"trustStores", "reslice"}, {"trustStores", "append"}, {"trustStores", "assign"}, {"trustStores", "sort"},
+	{"registryScopes", "element"}, {"registryScopes", "reslice"}, {"registryScopes", "append"}, {"registryScopes", "assign"},
+	{"trustedIdentities", "element"}, {"trustedIdentities", "reslice"}, {"trustedIdentities", "append"}, {"trustedIdentities", "assign"},
+	{"override", "mapSet"}, {"override", "mapDelete"}, {"level", "assign"}, {"name", "assign"}, {"globalPolicy", "assign"},
+}
+
+// runEditSweep: the handed-out-copy dimension, systematically (the random histories above meet
+// the rarer combinations - a leaked identity under a passing blob statement - only now and then).
+// accessor {OCI exact scope, OCI wildcard, blob by name, blob global} x situation {P: the statement
+// lists the store that holds the signer's root (pass), F: it lists a store holding an unrelated
+// root while the signer's root sits in an unlisted store of the required type and in the same
+// name under the other types (fail), L: as F with authenticity overridden to log} x every
+// (field, way of writing) x both schemes: verify, edit the copy, verify again; both are cases.
+func runEditSweep(c *common.Ctx, p *pki, seq *int) {
+	storeNames, scopePool = storeNameSets[0], scopePools[0]
+	r := c.Rand
+	targets := []struct{ kind, repo string }{{"oci", "reg.example/a"}, {"oci", "reg.example/b"}, {"blob", "s0"}, {"blob", ""}}
+	for _, tg := range targets {
+		for _, sit := range []string{"P", "F", "L"} {
+			for _, fh := range sweepFields {
+				if (fh[0] == "registryScopes" && tg.kind != "oci") || (fh[0] == "globalPolicy" && tg.kind == "oci") {
+					continue
+				}
+				for _, scheme := range []string{"x509", "signingAuthority"} {
+					want := wantType(scheme)
+					other := wantType(map[string]string{"x509": "signingAuthority", "signingAuthority": "x509"}[scheme])
+					list := []string{want + ":alpha", "tsa:beta"}
+					if sit != "P" {
+						list = []string{other + ":alpha", want + ":gamma", "tsa:alpha", want + ":gamma"}
+					}
+					tst := Stmt{TrustStores: list, Level: pick(r, []string{"strict", "permissive"}), AuthLog: sit == "L"}
+					oth := Stmt{TrustStores: []string{want + ":beta", other + ":beta"}, Level: "strict"}
+					a := acase{scheme: scheme, chain: pick(r, []string{"A", "B"}), format: pick(r, []string{"jws", "cose"}), backend: "mem",
+						repo: tg.repo, testKind: tg.kind, app: 0, globalAt: 1, names: []string{"s0", "s1", "s2"}, naming: "plain",
+						mode: "sweep-" + sit, plugin: "none", verifyTimestamp: []string{string(trustpolicy.OptionAfterCertExpiry), string(trustpolicy.OptionAfterCertExpiry)},
+						blobVerifyTimestamp: []string{string(trustpolicy.OptionAfterCertExpiry), string(trustpolicy.OptionAfterCertExpiry)}}
+					// the statement under test is s0 (exact scope / named) or s1 (wildcard / global)
+					first := tg.repo == "reg.example/a" || tg.repo == "s0"
+					mk := func(own, otherSt Stmt, scopes0, scopes1 []string) []Stmt {
+						s0, s1 := otherSt, own
+						if first {
+							s0, s1 = own, otherSt
+						}
+						s0.Scopes, s1.Scopes = scopes0, scopes1
+						return []Stmt{s0, s1}
+					}
+					if !first {
+						a.app = 1
+					}
+					a.stmts = mk(tst, oth, []string{"reg.example/a"}, []string{"*"})
+					a.blobStmts = mk(tst, oth, []string{"s0"}, []string{"s1", ""})
+					if tg.kind == "oci" { // the other document lists what would confer trust
+						a.blobStmts = mk(oth, oth, []string{"s0"}, []string{"s1", ""})
+					} else {
+						a.stmts = mk(oth, oth, []string{"reg.example/a"}, []string{"*"})
+					}
+					root := chainIDs[a.chain][len(chainIDs[a.chain])-1]
+					for _, ty := range storeTypes {
+						a.places = append(a.places,
+							place{ty: ty, name: "alpha", kind: "certs", certs: []int{root}},
+							place{ty: ty, name: "beta", kind: "certs", certs: []int{rootU, root}},
+							place{ty: ty, name: "gamma", kind: "certs", certs: []int{rootU}})
+					}
+					test := call{kind: a.testKind, scheme: a.scheme, chain: a.chain, repo: a.repo, world: "base", plugin: "none", phase: "test"}
+					rep := test
+					rep.phase = "repeat"
+					sc := newScenario(c, p, a, *seq, nil)
+					*seq++
+					c.Count("sweep scenarios")
+					for _, cl := range []call{test, {phase: "edit", editField: fh[0], editHow: fh[1]}, rep} {
+						if cl.phase == "edit" {
+							for _, k := range sc.edit(r, test, cl) {
+								c.Count("sweep " + k)
+							}
+							continue
+						}
+						in, o := sc.verify(cl)
+						c.Emit(in, o)
+						c.Count("sweep: situation " + sit + "/" + cl.phase + "/result=" + o.Result)
+					}
+					sc.close()
+				}
+			}
+		}
+	}
+}
+
 // Run generates the cases of C03.
 func Run(c *common.Ctx) error {
 	p := newPKI()
@@ -1530,9 +1871,27 @@ func Run(c *common.Ctx) error {
 				c.Count("store-kind=" + pl.kind + "/" + pl.link)
 			}
 		}
+		var test call
 		for _, cl := range calls {
+			if cl.phase == "test" {
+				test = cl
+			}
+		}
+		edited := false
+		for _, cl := range calls {
+			if cl.phase == "edit" {
+				for _, k := range sc.edit(c.Rand, test, cl) {
+					c.Count(k)
+				}
+				edited = true
+				continue
+			}
 			in, o := sc.verify(cl)
 			c.Emit(in, o)
+			if edited {
+				c.Count("verifications after an edit of a handed-out statement")
+				c.Count("after edit: result=" + o.Result)
+			}
 			c.Count("phase=" + cl.phase)
 			c.Count("result=" + o.Result)
 			c.Count("kind=" + cl.kind)
@@ -1559,8 +1918,12 @@ func Run(c *common.Ctx) error {
 		}
 		sc.close()
 	}
+	seq := n
+	runEditSweep(c, p, &seq)
 	runStress(c, p)
+	c.Note("handed-out copies, systematic sweep: accessor {OCI exact scope, OCI wildcard, blob by name, blob global} x situation {the statement lists the store holding the signer's root / it lists a store with an unrelated root while the signer's root sits in an unlisted store of the required type / the same with authenticity overridden to log} x every (field, way of writing it) x both schemes on the in-memory store: verify, edit the handed-out copy, verify again")
 	c.Note("concurrency stage (SAMPLED, not exhaustive): %d goroutines on %d CPUs verify (shared and private verifiers) and load (direct GetCertificates) against DIFFERENT (type, name) stores of ONE directory tree at the same time, fixed number of rounds; every call is a case held to the model's stateless prediction for its own statement and store (call log per call through the context)", stressGoroutines, runtime.NumCPU())
+	c.Note("handed-out copies: in about half of the scenarios 1-2 EDIT steps stand between the verifications of the history (mostly right before the test or between test and repeat): a caller asks the verifier's own OCI / blob document for a statement through GetApplicableTrustPolicy / GetGlobalTrustPolicy (documented: deep copy; mostly the statement the test runs under, one time in five the other document or another statement) and writes into its copy - TrustStores / RegistryScopes / TrustedIdentities (every or one element in place, append to [:0], append, re-assignment, reverse sort), Override map entries for authenticity (set log / enforce, delete), level, name, global flag; TrustStores values prefer a store of the required type that loads, holds a chain certificate and is NOT listed. Input.copyEdits tells the model, which ignores it (run_copyEdits_irrelevant, holds_copyEdits_irrelevant): Input.statements stays the document the verifier holds")
 	c.Note("scenarios = one verifier instance + one trust store object + an OCI and a blob policy document with statements of the same names; every scenario is a history of 2-4 verifications on that instance: 0-2 prelude verifications (other scheme under the same statement / other chain / other statement / the statement of the same name in the other document kind, optionally with the other scheme / the same verification under a 'poison' world in which every store loads and holds the chain, or under a world in which no store loads, swapped back afterwards: MemStore contents replaced, directory tree renamed), then the verification under test (Verify, or VerifyBlob in one scenario of five), then the same verification again; EVERY call is a case and is held to the model's stateless prediction (result, call log, acceptance). Worlds: 3 store types x names {alpha,beta,gamma} (same name under several types), each store absent / loadable / empty / failing, holding certificates of the signer's chain (root, intermediate, leaf, self-signed leaf) or unrelated ones; 1-3 statements with disjoint scopes and optional wildcard statement, trustStores lists of 1-9 values with duplicates, all three types, never-placed name delta; modes random / adversarial (chain certificates only where they must not count) / good / good with one listed store broken; one scenario in eight writes values a validated policy cannot carry (missing separator, empty name, two separators, unknown type) into the documents after construction; both schemes, JWS and COSE, levels strict/permissive/audit, revocation skipped, trustedIdentities *; back ends: instrumented MemStore and the real x509TrustStore over a directory tree (load result of a directory store computed by the harness from what it wrote)")
 	return nil
 }
